@@ -224,6 +224,115 @@ theorem wrong_secret_absent_concrete (pk : PkTable) (name : Str) (value : CVal) 
   have := (encode_chars (concreteLib pk) hb (name, value) key c hc).2.1
   omega
 
+/-! ### the response that reaches the server is not always the one the cookie was set on -/
+
+/-- **copy_preserves_cookies**: `response.copy(cls)` (what `redirect()` raises) carries a cookie
+over with the same name and the same coded value, for every legal name and every Latin-1 text
+-- in particular for values that need quoting and for every signed cookie (`cookieEncode` output
+is Latin-1: ASCII).  Hence whatever is emitted and read back from the copy equals what is emitted
+and read back from the original (`copy_roundtrip_same`). -/
+theorem copy_preserves_cookies (name v : Str) (hn : LegalName name) (hv : ∀ c ∈ v, c.toNat < 256) :
+    copyJar [(name, quote v)] = .ok [(name, quote v)] := copyJar_single name v hn hv
+
+/-- all emission paths of the model hand `headerlist` the same one-cookie jar: returned directly,
+copied (once or twice), redirected, error page; and a cookie set on a raised response replaces
+the jar of the live response -/
+theorem emission_paths_same (path : EmitPath) (name v : Str) (hn : LegalName name)
+    (hv : ∀ c ∈ v, c.toNat < 256) (hp : path ≠ .raised) :
+    emitVia path [(name, quote v)] [] = .ok [(name, quote v)] := by
+  have hc := copyJar_single name v hn hv
+  cases path with
+  | direct => rfl
+  | errpage => rfl
+  | copy => simp [emitVia, hc, applyJar, Except.map]
+  | redirect => simp [emitVia, hc, applyJar, Except.map]
+  | copy2 => simp [emitVia, hc, applyJar, bind, Except.bind, pure, Except.pure]
+  | raised => exact absurd rfl hp
+
+theorem raised_jar_wins (resp : Jar) (name coded : Str) :
+    emitVia .raised resp [(name, coded)] = .ok [(name, coded)] := rfl
+
+/-- a signed cookie set before `redirect()` (or any copy) is read back by the next request exactly
+as when the response is returned directly: the round-trip theorems apply to the copied jar -/
+theorem copy_roundtrip_same (L : Lib) (path : EmitPath) (name v : Str) (hn : LegalName name)
+    (hv : ∀ c ∈ v, c.toNat < 256) (hp : path ≠ .raised) (key : Str) (secret : Bytes) :
+    (emitVia path [(name, quote v)] []).map (fun j => getCookie L (clientHeader (emit j)) key secret) =
+      .ok (getCookie L (clientHeader (emit [(name, quote v)])) key secret) := by
+  rw [emission_paths_same path name v hn hv hp]; rfl
+
+/-! ### one request object read again after its `Cookie` header changed -/
+
+/-- the same handler described without the cache: only the header each request object carries -/
+def specReq (L : Lib) : Option Str → Option Str → List ReqOp → List (Except CErr (Option CVal) × List Bytes)
+  | _, _, [] => []
+  | h0, h1, .get i k s :: ops =>
+    getCookie L ((if i == 0 then h0 else h1).getD []) k s :: specReq L h0 h1 ops
+  | h0, h1, .set i k v :: ops =>
+    if k == cookieKey then (if i == 0 then specReq L (some v) h1 ops else specReq L h0 (some v) ops)
+    else specReq L h0 h1 ops
+  | h0, h1, .del i k :: ops =>
+    if k == cookieKey then (if i == 0 then specReq L none h1 ops else specReq L h0 none ops)
+    else specReq L h0 h1 ops
+  | h0, _, .copy :: ops => specReq L h0 h0 ops
+
+/-- **reread_after_header_change**: whatever sequence of reads, `request[key] = value`,
+`del request[key]` and `request.copy()` a handler performs, every read answers exactly what a
+fresh request carrying the *current* `Cookie` header would answer -- the cache of parsed cookies is
+never observable.  In particular a forged, truncated or re-signed cookie put into the request
+after the genuine one was read is judged on its own (`tamper_absent`), never as the value seen
+before. -/
+theorem reread_after_header_change (L : Lib) (ops : List ReqOp) (r0 r1 : Req)
+    (h0 : Coherent L r0) (h1 : Coherent L r1) :
+    runReq L r0 r1 ops = specReq L r0.hdr r1.hdr ops := by
+  induction ops generalizing r0 r1 with
+  | nil => rfl
+  | cons op ops ih =>
+    cases op with
+    | get i k s =>
+      simp only [runReq, specReq]
+      split
+      · obtain ⟨e1, e2, e3⟩ := req_getCookie L r0 h0 k s
+        rw [ih _ _ e3 h1, e1, e2]
+      · obtain ⟨e1, e2, e3⟩ := req_getCookie L r1 h1 k s
+        rw [ih _ _ h0 e3, e1, e2]
+    | set i k v =>
+      simp only [runReq, specReq]
+      by_cases hk : k = cookieKey
+      · subst hk
+        simp only [beq_self_eq_true, if_true]
+        split
+        · rw [ih _ _ (setItem_coherent L r0 _ v h0) h1, setItem_hdr]
+        · rw [ih _ _ h0 (setItem_coherent L r1 _ v h1), setItem_hdr]
+      · have hk' : (k == cookieKey) = false := by simpa using hk
+        simp only [hk', Bool.false_eq_true, if_false]
+        split
+        · rw [ih _ _ (setItem_coherent L r0 k v h0) h1, setItem_other_hdr r0 k v hk]
+        · rw [ih _ _ h0 (setItem_coherent L r1 k v h1), setItem_other_hdr r1 k v hk]
+    | del i k =>
+      simp only [runReq, specReq]
+      by_cases hk : k = cookieKey
+      · subst hk
+        simp only [beq_self_eq_true, if_true]
+        split
+        · rw [ih _ _ (delItem_coherent L r0 _ h0) h1, delItem_hdr]
+        · rw [ih _ _ h0 (delItem_coherent L r1 _ h1), delItem_hdr]
+      · have hk' : (k == cookieKey) = false := by simpa using hk
+        simp only [hk', Bool.false_eq_true, if_false]
+        split
+        · rw [ih _ _ (delItem_coherent L r0 k h0) h1, delItem_other_hdr r0 k hk]
+        · rw [ih _ _ h0 (delItem_coherent L r1 k h1), delItem_other_hdr r1 k hk]
+    | copy =>
+      simp only [runReq, specReq]
+      exact ih r0 r0 h0 h0
+
+/-- the instance the red team asked for: read the genuine cookie, replace the header through item
+assignment, read again -- the second answer is that of the new header alone -/
+theorem reread_second_read (L : Lib) (hdr hdr' k : Str) (s : Bytes) :
+    runReq L ⟨some hdr, none⟩ ⟨some hdr, none⟩ [.get 0 k s, .set 0 cookieKey hdr', .get 0 k s] =
+      [getCookie L hdr k s, getCookie L hdr' k s] := by
+  rw [reread_after_header_change L _ _ _ (coherent_fresh L _) (coherent_fresh L _)]
+  simp [specReq]
+
 /-- the `Set-Cookie` value of a Latin-1 cookie consists of printable ASCII only: no CR, LF, NUL or
 any other control character (what C14's `wsgi_emitted_clean` assumes about the cookie jar) -/
 theorem emit_clean (name v : Str) (hn : LegalName name) (hv : ∀ c ∈ v, c.toNat < 256) :
@@ -284,6 +393,18 @@ example : getCookie exLib ("sid=\"!Hsf0NE3yohm5B06oF4y7cg==?gAVLAS4\"".toList) "
 /-- `replay_under_other_name_absent`: the cookie of `sid` presented as `uid` -/
 example : getCookie exLib ("uid=\"!Hsf0NE3yohm5B06oF4y7cg==?gAVLAS4=\"".toList) "uid".toList exKey =
     (.ok none, [[128, 5, 75, 1, 46]]) := by decide +kernel
+
+/-- `copy_preserves_cookies` / `emission_paths_same`: a value that needs quoting, and a signed cookie -/
+example : copyJar [("n".toList, quote "a b;c=\"d\"".toList)] = .ok [("n".toList, quote "a b;c=\"d\"".toList)] :=
+  copy_preserves_cookies _ _ (by decide) (by decide)
+example : emitVia .redirect [("sid".toList, quote (latin1Dec exData))] [] =
+    .ok [("sid".toList, "\"!Hsf0NE3yohm5B06oF4y7cg==?gAVLAS4=\"".toList)] := by decide +kernel
+
+/-- `reread_after_header_change`: genuine cookie read, header replaced by a truncated copy, read again -/
+example : runReq exLib ⟨some "sid=\"!Hsf0NE3yohm5B06oF4y7cg==?gAVLAS4=\"".toList, none⟩ ⟨none, none⟩
+    [.get 0 "sid".toList exKey, .set 0 cookieKey "sid=\"!Hsf0NE3yohm5B06oF4y7cg==?gAVLAS4\"".toList,
+     .get 0 "sid".toList exKey, .del 0 cookieKey, .get 0 "sid".toList exKey] =
+    [(.ok (some (.obj [49])), [[128, 5, 75, 1, 46]]), (.ok none, []), (.ok none, [])] := by decide +kernel
 
 /-- `plain_roundtrip`: hypotheses met by a value with separators, quotes and Latin-1 text -/
 example : LegalName "n".toList ∧ (∀ c ∈ "a;b \"é\\073".toList, c.toNat < 256) ∧ TokAt exLib "n".toList "a;b \"é\\073".toList :=
